@@ -13,7 +13,7 @@ from ..engine import flow, cfg as cfgmod
 from ..engine import pattern as P
 from ..engine.facts import ancestors, dotted, const, src, walk_func, enclosing_stmt
 from . import skeletons as sk
-from .common import calls, contains, pn, access_paths, assigned_from, branch_paths, resolve, resolve_deep, guards_of, facts_at
+from .common import calls, contains, pn, access_paths, assigned_from, branch_paths, resolve, resolve_deep, guards_of, facts_at, sym_cases
 from .common import _fold_not as _fold
 
 
@@ -261,7 +261,15 @@ def wiring(ctx):
     ctx.check(P.has(ps, "if hasattr($t.module, '_mako_inherit'):\n    $r = $t.module._mako_inherit($t, $c)\n    if $r:\n        return $r\nreturn ($t.callable_, $c)"), "populate-returns", db.where(ps), "_populate_self_namespace does not return the inherit result or the template's own body", "base body if inheriting, else own body")
     rc = db.func("runtime._render_context")
     t = src(rc)
-    ctx.check(P.has(rc, "($i, $l) = _populate_self_namespace($c, $t)\n_exec_template($i, $l, args=$a, kwargs=$k)"), "executes-base", db.where(rc), "_render_context does not execute what _populate_self_namespace returned", "executes the base-most body with its context")
+    # what is executed for a whole template: the two things _populate_self_namespace(context, template) returned
+    ex_ = [c_ for c_ in walk_func(rc) if isinstance(c_, ast.Call) and dotted(c_.func) == "_exec_template"]
+    pop_ = "_populate_self_namespace(%s, %s)" % (pn(rc, 2), pn(rc, 0))
+    okx = False
+    for e_ in ex_:
+        for conds_, v_ in sym_cases(rc, e_):
+            if any(P.matches(t_, "isinstance(%s, $cls)" % pn(rc, 0)) and not tv_ for t_, tv_ in conds_) and len(v_.args) >= 2:
+                okx = src(v_.args[0]) == pop_ + "[0]" and src(v_.args[1]) == pop_ + "[1]"
+    ctx.check(okx, "executes-base", db.where(rc), "_render_context does not execute what _populate_self_namespace returned", "executes the base-most body with its context")
     wi = db.func("codegen._GenerateRenderMethod.write_inherit")
     c = calls(db.func("codegen._GenerateRenderMethod.write_toplevel"), "self.write_inherit")
     wt_ = db.func("codegen._GenerateRenderMethod.write_toplevel")
